@@ -121,11 +121,11 @@ func c19Defaults(rep *h.Report) {
 		return v == 1
 	}
 	type num struct {
-		manifestLimit, refLimit     int64
-		pageExpire                  time.Duration
-		pageLimit                   int
-		freq, grace                 time.Duration
-		uploadMax                   int
+		manifestLimit, refLimit int64
+		pageExpire              time.Duration
+		pageLimit               int
+		freq, grace             time.Duration
+		uploadMax               int
 	}
 	nums := []num{}
 	for _, ml := range []int64{0, -5, 100} {
